@@ -47,6 +47,11 @@ CHECKS = {
   note="Only one hash-iteration site is modelled; other sites are covered by the cross-process oracle only (it found and a fix: commit repaired the missing-field diagnostic order).",
   technique="Lean 4 proof (sorting + permutation invariance) + manifest correspondence + cross-process byte-comparison oracle",
   ref="C12"),
+ "C14": dict(
+  text="Lean 4: models of both resolvers (command-line `collect_modules` and the language server's `resolve_import_path`), the CLI work list and the import visibility check. Proved: `resolvers_agree_partial` (the two resolve an import to the same file when it names a module by all its segments, is written in the entry directory, and the module is not a `mod.incn` directory module), with kernel-checked witnesses that each hypothesis is needed (`resolvers_do_not_agree`) — each witness is a recorded finding replayed on the real code; `private_rejected` (importing a non-exported name is rejected for both `from m import x` and `import m::x`); the work list parses every file at most once and its measure decreases (cycles cannot hang). Full agreement, diagnostics for missing modules/cycles and visibility of qualified access `m.x` do not hold in the code: recorded as known findings.",
+  note="Six known findings (three resolver disagreements, qualified access, silent missing module, silent cycle). Assumes nothing relevant exists above the modelled tree for `crate::` lookups. Tie: both real resolvers on 13 layouts × 17 import spellings + nested + random layouts; real collect_modules+check_with_imports on 13 project scenarios.",
+  technique="Lean 4 proof (partial agreement theorem + witnesses, invariants of the work list) + resolver correspondence on real directory trees + agreement/visibility oracle",
+  ref="C14"),
  "C15": dict(
   text="Lean 4 theorems about the model of add_rust_crate / generate_cargo_toml: every accepted dependency is pinned (version or path; the whole known-good table checked), a crate without a known-good version is always refused, the declared names are exactly the fixed runtime/feature crates plus the rust:: crates (both directions), and no name is declared twice (valid TOML keys). Feature detection (serde/async/web → flags) is modelled as the three scanner outcomes; which constructs trigger a scanner is oracle-only.",
   note="Tie: model manifest = Cargo.toml written by ProjectGenerator (flags × crate sets, whole table) and by `incan build` with a stub cargo (8 feature-trigger combinations, imports in main and dependency modules, project names). Oracle: exactness, pinning, package/binary name, references found in generated sources ⊆ declared.",
